@@ -57,7 +57,13 @@ def engine_env(engine: str, thash: str | None = None) -> dict[str, str]:
     if thash is None:
         thash = tree_hash()
     cache = HOME / ".nbcache" / f"{engine}-{thash}"
+    env.pop("PYTHONOPTIMIZE", None)
     if engine == "jit":
+        env["NUMBA_CACHE_DIR"] = str(cache)
+    elif engine == "opt":
+        # the same code in an interpreter started with -O (assert statements
+        # and `if __debug__:` blocks are compiled away)
+        env["PYTHONOPTIMIZE"] = "1"
         env["NUMBA_CACHE_DIR"] = str(cache)
     elif engine == "bc":
         env["NUMBA_BOUNDSCHECK"] = "1"
